@@ -24,7 +24,12 @@ use hx03::{
 use serde_json::{Value, json};
 
 const SITES: &[&str] = &["x.main", "x.task", "drv.flush", "x.wait.enter", "x.clear", "awake.reset", "awake.set"];
-const WATCHDOG: Duration = Duration::from_secs(20);
+const WATCHDOG_DEFAULT: Duration = Duration::from_secs(20);
+
+/// The watchdog (the negative control of the check shortens it: it knows that its case hangs).
+fn watchdog() -> Duration {
+    std::env::var("VERIF_X03_WATCHDOG_MS").ok().and_then(|s| s.parse().ok()).map(Duration::from_millis).unwrap_or(WATCHDOG_DEFAULT)
+}
 
 fn spawn_run(host: String, driver: String, env: Arc<Env>, steer: bool) -> (mpsc::Receiver<Result<Outcome, String>>, std::thread::JoinHandle<()>) {
     let (tx, rx) = mpsc::channel();
@@ -70,7 +75,7 @@ fn reference(prog: &Prog, driver: &str) -> Result<Outcome, String> {
             std::thread::sleep(Duration::from_millis(1));
         }
     });
-    let r = rx.recv_timeout(WATCHDOG);
+    let r = rx.recv_timeout(watchdog());
     let _ = firer.join();
     quiesce_pool(d0, prog.jobs.len());
     match r {
@@ -201,6 +206,13 @@ fn steer(case: &Value, env: &Arc<Env>, rep: &mut Report) -> CaseResult {
     let mut res = CaseResult { diverged: None, timing: false, executed: 0 };
     let mut asleep = false; // R was granted a turn that blocks in the host
     let mut prev_poll: Option<(String, Vec<String>)> = None; // (target, expected obs) of the last x.main / x.task turn
+    let mut due_done: Vec<String> = vec![]; // timers whose deadline the schedule has let pass
+    // the model lets a deadline pass only in its "due" step: a deadline that passes earlier (loaded machine) makes the
+    // real loop run ahead of the schedule - that is a timing artefact of the steering, not a verdict
+    let overtaken = |env: &Env, due_done: &Vec<String>| {
+        let now = Instant::now();
+        env.deadlines.lock().unwrap().iter().any(|(t, d)| *d <= now && !due_done.contains(t))
+    };
     for (i, st) in steps.iter().enumerate() {
         rep.steps += 1;
         let site = st["site"].as_str().unwrap();
@@ -223,6 +235,9 @@ fn steer(case: &Value, env: &Arc<Env>, rep: &mut Report) -> CaseResult {
                 res.diverged = Some(format!("step {i}: {e}"));
                 break;
             }
+            if site == "due" {
+                due_done.push(arg.to_string());
+            }
             res.executed += 1;
             continue;
         }
@@ -232,6 +247,9 @@ fn steer(case: &Value, env: &Arc<Env>, rep: &mut Report) -> CaseResult {
         if let Some((tgt, want)) = prev_poll.take() {
             let got = env.polls.lock().unwrap().iter().rev().find(|(t, _)| *t == tgt).map(|(_, o)| o.clone());
             if got.as_ref() != Some(&want) && res.diverged.is_none() {
+                if overtaken(env, &due_done) {
+                    res.timing = true;
+                }
                 res.diverged = Some(format!("step {}: poll of {tgt} observed {:?}, the model expects {:?}", i - 1, got, want));
             }
         }
@@ -242,6 +260,9 @@ fn steer(case: &Value, env: &Arc<Env>, rep: &mut Report) -> CaseResult {
                     res.timing = true; // the deadline passed while the schedule was being steered
                 }
                 if res.diverged.is_none() {
+                    if overtaken(env, &due_done) {
+                        res.timing = true;
+                    }
                     res.diverged = Some(format!("step {i}: R is at {}({}) but the model expects {site}({arg})", a.site, a.arg));
                 }
                 // keep steering if possible: run through up to 12 unexpected sites
@@ -268,6 +289,9 @@ fn steer(case: &Value, env: &Arc<Env>, rep: &mut Report) -> CaseResult {
         }
         if arrived.is_none() {
             if res.diverged.is_none() {
+                if overtaken(env, &due_done) {
+                    res.timing = true;
+                }
                 res.diverged = Some(format!(
                     "step {i}: R did not arrive at {site}({arg}) within {wait_ms} ms (finished={}, asleep in the host={asleep})",
                     ctl::is_finished()
@@ -300,7 +324,8 @@ fn steer(case: &Value, env: &Arc<Env>, rep: &mut Report) -> CaseResult {
     res
 }
 
-fn run_case(case: &Value, refs: &mut BTreeMap<String, Result<Outcome, String>>, rep: &mut Report, timer_ms: u64) {
+/// Returns (timing inconclusive, number of attempts).
+fn run_case(case: &Value, refs: &mut BTreeMap<String, Result<Outcome, String>>, rep: &mut Report, timer_ms: u64) -> (bool, u32) {
     let driver = case["driver"].as_str().unwrap().to_string();
     let host = case["host"].as_str().unwrap().to_string();
     let prog = Prog::from_json(&case["prog"]);
@@ -340,7 +365,7 @@ fn run_case(case: &Value, refs: &mut BTreeMap<String, Result<Outcome, String>>, 
             }
             let t0 = Instant::now();
             let mut got = None;
-            while t0.elapsed() < WATCHDOG {
+            while t0.elapsed() < watchdog() {
                 if let Ok(x) = rx.recv_timeout(Duration::from_millis(50)) {
                     got = Some(x);
                     break;
@@ -361,7 +386,7 @@ fn run_case(case: &Value, refs: &mut BTreeMap<String, Result<Outcome, String>>, 
         let mut hung = false;
         if dead && r.diverged.is_none() {
             // the model predicts that the loop now sleeps over a completion: confirm on the real code
-            match rx.recv_timeout(Duration::from_millis(1500)) {
+            match rx.recv_timeout(Duration::from_millis(1200)) {
                 Ok(x) => {
                     outcome = Some(x);
                     rep.problem("mismatch", sig_base("model-predicts-lost-completion"),
@@ -389,7 +414,7 @@ fn run_case(case: &Value, refs: &mut BTreeMap<String, Result<Outcome, String>>, 
                     }
                 });
             }
-            match rx.recv_timeout(WATCHDOG) {
+            match rx.recv_timeout(watchdog()) {
                 Ok(x) => outcome = Some(x),
                 Err(_) => hung = true,
             }
@@ -430,9 +455,6 @@ fn run_case(case: &Value, refs: &mut BTreeMap<String, Result<Outcome, String>>, 
                 rep.problem("mismatch", sig_base("schedule"), d.clone(), case, r.executed);
             }
         }
-        if r.timing {
-            rep.set("timing_inconclusive", json!(1));
-        }
         match outcome {
             Some(Ok(o)) => {
                 let _ = handle.join();
@@ -459,13 +481,17 @@ fn run_case(case: &Value, refs: &mut BTreeMap<String, Result<Outcome, String>>, 
         if env.timer_early.load(Ordering::SeqCst) {
             rep.problem("contract", sig_base("timer-early"), "a sleep completed before its duration had elapsed".into(), case, r.executed);
         }
-        let _ = ctl::take_log();
+        let log = ctl::take_log();
+        if trace() {
+            let tail: Vec<String> = log.iter().rev().take(30).rev().map(|a| format!("{}({})", a.site, a.arg)).collect();
+            eprintln!("R passed {} sites; last: {}", log.len(), tail.join(" "));
+        }
         env.fire_all();
         quiesce_pool(pool0, prog.jobs.len());
         if trace() {
             eprintln!("case done after {:?}", ts.elapsed());
         }
-        return;
+        return (r.timing, attempt);
     }
 }
 
@@ -478,19 +504,25 @@ fn main() {
     let mut rep = Report::new();
     let mut refs = BTreeMap::new();
     let mut inconclusive = 0u64;
+    let mut retried = 0u64;
     for case in cases_from_arg() {
-        let before = rep.steps;
         let r = std::panic::catch_unwind(std::panic::AssertUnwindSafe(|| run_case(&case, &mut refs, &mut rep, timer_ms)));
-        if let Err(e) = r {
-            rep.problem("panic", json!({"site": "compat", "what": "harness"}), format!("panic in the harness: {}", panic_msg(e)), &case, 0);
+        match r {
+            Err(e) => rep.problem("panic", json!({"site": "compat", "what": "harness"}), format!("panic in the harness: {}", panic_msg(e)), &case, 0),
+            Ok((timing, attempts)) => {
+                if timing {
+                    inconclusive += 1;
+                }
+                retried += (attempts - 1) as u64;
+            }
         }
-        let _ = before;
         rep.cases += 1;
         if rep.cases % 20 == 0 {
             eprintln!("x03_replay: {} cases", rep.cases);
         }
     }
-    let _ = &mut inconclusive;
+    rep.set("timing_inconclusive", json!(inconclusive));
+    rep.set("timing_retries", json!(retried));
     rep.finish();
     // threads of runs that hung for good may still be alive
     std::process::exit(0);
